@@ -1,5 +1,19 @@
-CONSTANTS Strata = {"sep"}
+CONSTANTS Strata = {"num"}
           NumLen = 3
 INIT Init
 NEXT Eval
+INVARIANT MeetIsGLB
+INVARIANT MeetAlgebra
+INVARIANT DeprefixLaws
 INVARIANT DeprefixSepLaws
+INVARIANT SplitJoin
+INVARIANT SplitMechIsLaw
+INVARIANT DedupLaw
+INVARIANT ReplaceFixpoint
+INVARIANT RefusalJustified
+INVARIANT CharMapLaws
+INVARIANT BbgLaws
+INVARIANT EndingsConsistent
+INVARIANT BlanksAndCommas
+INVARIANT SignAndPercent
+INVARIANT OneReading
